@@ -17,6 +17,7 @@ from props import c11 as m
 
 
 WORST_SCORE = -536870912
+T0_DEC = 6932           # first entry of the decoder's log-add table (C12_int_link_posterior_dec)
 DELTA = 0.5 + 1e-6     # rounding of one entry of the log-add table (round to nearest, shift 0)
 EPS = 1e-5             # float64 slack of the reference
 
@@ -271,6 +272,27 @@ def judge_c12(c, d, rep, tab, case, stats):
                 viol.append((f"backward total {bint:.3f} (from the betas) and forward total {d['Q']['norm']} differ by more than {enorm + ebwd:.1f}", True))
             if d["Q"]["post"] > 0:
                 viol.append((f"posterior of the best path {d['Q']['post']} exceeds one", True))
+            # the PROVED bound (C12_int_link_posterior_dec): alpha + beta - norm <= t[0] * (|links| + sum of out-degrees of the link
+            # targets); its hypotheses (no path prefix / suffix score below log-zero) are evaluated on the lattice
+            adds = nl + sum(len(exits[l["dst"]]) for l in L)
+            proved = T0_DEC * adds
+            wpost = max((r["post"] for r in d["R"].values()), default=0)
+            if wpost > proved:
+                viol.append((f"a link posterior {wpost} exceeds one by more than the proved accumulated bound {proved} (= {T0_DEC} x {adds} additions)", True))
+            lo_pre, lo_suf = {s: 0}, {e: 0}
+            for j in T:
+                a2, b2 = L[j]["src"], L[j]["dst"]
+                if a2 in lo_pre:
+                    lo_pre[b2] = min(lo_pre.get(b2, 0), lo_pre[a2] + sc[j])
+            for j in reversed(T):
+                a2, b2 = L[j]["src"], L[j]["dst"]
+                if b2 in lo_suf:
+                    lo_suf[a2] = min(lo_suf.get(a2, 0), lo_suf[b2] + sc[j])
+            if min(list(lo_pre.values()) + list(lo_suf.values())) < lz:
+                c.oblige("hypotheses of C12_int_link_posterior_dec / C12_int_bestpath_posterior_dec (no path score underflows log-zero) hold on the dumped lattice",
+                         False, {"case": case, "request": d["tag"]})
+            stats["posterior:largest-link-posterior-over-one(log units)"] = max(stats.get("posterior:largest-link-posterior-over-one(log units)", 0), wpost)
+            stats["posterior:smallest-proved-bound"] = min(stats.get("posterior:smallest-proved-bound", 10 ** 12), proved) if nl else stats.get("posterior:smallest-proved-bound", 10 ** 12)
             # exact correspondence of the integer passes (model: alphaInt/betaInt/normInt with the decoder's log-add table)
             if ok_lat and rep.get("alpha") is not None and len(rep["alpha"]) == nl:
                 inc("posterior:lattices-compared-exactly")
@@ -401,10 +423,15 @@ def check(c):
     c.assumptions += ["the property is evaluated on lattices satisfying C11 (checked by latticeOKB in the same run)",
                       "N-best scores omit the link out of the synthetic <s> node when the path is seeded at a frame-0 word node (A* seeds every frame-0 node); "
                       "the property does not relate the first N-best score to the best-path score and neither does the check",
-                      "log-add rounding bound: half a unit of the log base per table addition after the first contribution, accumulated along the dependency chain "
-                      "of each alpha/beta/norm (sup-norm Lipschitz argument); the integer pass is not modelled in Lean (partial)"]
+                      "integer link posteriors: the proved bound t[0] x (number of log-additions) (C12_int_link_posterior_dec) is checked, and in addition the sharper "
+                      "estimate of half a unit per table addition accumulated along the dependency chain of each alpha/beta/norm against a float64 reference "
+                      "(sup-norm Lipschitz argument; not proved)"]
     if not c.lean_obligations():
         return
+    import re
+    mt = re.search(r"def dec_runs_0 : List \(Nat × Nat\) := \[\((\d+),", (vlib.LEAN / "SSVerif" / "Generated" / "LogTables.lean").read_text())
+    c.oblige("t[0] of the regenerated decoder log-add table is the constant of C12_int_link_posterior_dec used by the check", bool(mt) and int(mt.group(1)) == T0_DEC,
+             mt.group(1) if mt else "dec_runs_0 not found")
     binp = vlib.build_harness("h_c11")
     audios = m.audio_files(str(c.scratch / "audio"))
     rng = c.rng.fork()
